@@ -1,0 +1,7 @@
+//go:build !verif
+
+package badger
+
+// verifForceFull is a verification hook (build tag "verif"); without the tag it never forces
+// a memtable rotation.
+func verifForceFull(mt *memTable) bool { return false }
